@@ -165,6 +165,7 @@ package client
 //@   ensures [C25] keeps_handlers: handlersWF(c.messageHandlers)
 //@   ensures [C25] keeps_entries: clEntries(c)
 //@   ensures [C25] keeps_typed: clTyped(c)
+//@   ensures [C25] keeps_api: old(seqInv(c.msgID) && c.group != nil && c.groupCtx != nil) ==> seqInv(c.msgID) && c.group != nil && c.groupCtx != nil
 // C17: every PUBREL is answered (one send attempt) with a PUBCOMP of the same message ID, whether or not the exchange is still known
 // C16 / C27: a QoS 0/1 PUBLISH that is accepted is handed to the dispatcher exactly once, on receipt (QoS 1: after its PUBACK was sent);
 // a QoS 2 PUBLISH is not dispatched on receipt (it is dispatched by Pubrel)
@@ -400,3 +401,41 @@ package client
 //@   at Ping.0 before assert [C33] keep_alive_only_while_active: deref(c.state) == 1
 // a ping abandoned because the client fell asleep or disconnected meanwhile does not end the loop (and with it the client)
 //@   ensures [C33] an_abandoned_ping_does_not_end_the_client: result != errPingAbandoned
+
+// ---- from NewClient to the steps (C25): the client-side counterpart of ListenAndServe -> newHandler -> run -> loops ----
+// NewClient builds a client whose stores are empty; Dial gives it its connection and starts the two loops; the receive loop keeps the
+// client invariant from packet to packet. The application's configuration is an assumption (A-CLIENTCFG), as is a non-nil logger.
+//@ pred cNew(c *Client) = c != nil && c.cfg != nil && cfgFits(c.cfg) && c.transactions != nil && storeInv(c.transactions) &&
+//@      c.registeredTopics != nil && c.messageHandlers != nil && c.state != nil && c.msgID != nil && seqInv(c.msgID) && c.log != nil &&
+//@      handlersWF(c.messageHandlers) && clEntries(c) && clTyped(c)
+//@ func NewClient
+//@   nopanic [C25]
+//@   requires [C25] application: log != nil && cfg != nil && cfgFits(cfg)
+//@   ensures [C25] a_new_client_is_well_formed: cNew(result) && fresh(result) && result.conn == nil && result.mockupDialFunc == nil
+//@ func (*Client).Dial
+//@   nopanic [C25]
+//@   opaquecalls
+//@   requires [C25] new: cNew(c)
+// Dial is called once, on a client NewClient has just built (no connection yet, the test hook mockupDialFunc unset)
+//@   requires [C25] not_dialled_yet: c.conn == nil && c.mockupDialFunc == nil
+//@   deadreturn 1 the test hook is unset
+//@   assigns *
+//@   ensures [C25] a_dialled_client_satisfies_the_invariant_the_api_calls_assume: result == nil ==> apiInv(c)
+// DTLS set-up (pion): contract assumed
+//@ func (*Client).connectDTLS
+//@   trusted
+//@   ensures io: result1 == nil ==> result0 != nil
+//@ func (*Client).Dial$1
+//@   nopanic [C25]
+//@   requires [C25] inv: apiInv(c)
+//@   assigns *
+//@ func (*Client).Dial$2
+//@   nopanic [C25]
+//@   requires [C25] inv: apiInv(c)
+//@   assigns *
+//@ func (*Client).receiveLoop
+//@   nopanic [C25]
+//@   opaquecalls
+//@   requires [C25] inv: apiInv(c)
+//@   assigns *
+//@   loop 0 invariant [C25] inv: apiInv(c)
